@@ -160,6 +160,26 @@ pub fn gen_text(rng: &mut Rng, tier: Tier) -> Vec<u8> {
     if size > 0 && rng.chance(60) {
         s.push_str(nl);
     }
+    if rng.chance(10) {
+        // dictionary strings (terminal escapes, end-of-file marks, the tool's own vocabulary)
+        let m = gen::magic(rng);
+        match rng.below(4) {
+            0 => s.insert_str(0, m),
+            1 => s.push_str(m),
+            2 => {
+                if !s.is_empty() && !s.ends_with('\n') {
+                    s.push('\n');
+                }
+                s.push_str(m);
+                s.push('\n');
+            }
+            _ => {
+                let cs: Vec<char> = s.chars().collect();
+                let at = rng.usize(0, cs.len());
+                s = cs[..at].iter().collect::<String>() + m + &cs[at..].iter().collect::<String>();
+            }
+        }
+    }
     // characters with a history of special treatment, at the very start and the very end of the input
     if rng.chance(12) {
         s.insert(0, edge_char(rng));
@@ -320,8 +340,9 @@ impl Property for C14 {
                 out.violation = Some(Violation::new(&tag("panic"), "no panic", m.clone()));
                 return out;
             }
-            if r.out != ex.out {
-                let (e, o) = diff_msg(&ex.out, &r.out);
+            let shown = r.out_for(&ex.out);
+            if shown != ex.out {
+                let (e, o) = diff_msg(&ex.out, &shown);
                 out.violation = Some(Violation::new(&tag("output-bytes"), e, o));
                 return out;
             }
@@ -375,7 +396,7 @@ impl Property for C14 {
             }
         }
         let n = match tier {
-            Tier::Quick => 132,
+            Tier::Quick => 330,
             Tier::Thorough => 6000,
         };
         let dir = crate::sim::scratch_dir().join("c14real");
@@ -401,21 +422,31 @@ impl Property for C14 {
                     base.set_knob("k", (base.knob("k")).min(300));
                 }
             }
-            if i % 4 == 1 {
-                // every edge character once at the start and once at the end (enumerated, not sampled)
-                let j = (i / 4) as usize;
-                let h = simcore::mix(base.plan.key ^ 0xED6E);
-                let c = char::from_u32(EDGE[j % 16]).unwrap_or('\u{FEFF}');
+            if i % 2 == 1 {
+                // enumerated, not sampled: every edge character and every dictionary string at the start, at the
+                // end, alone on the first line and alone on the last line
+                let j = (i / 2) as usize;
+                let items: Vec<String> = EDGE.iter().map(|c| char::from_u32(*c).unwrap_or('\u{FEFF}').to_string()).chain(gen::MAGIC.iter().map(|m| m.to_string())).collect();
+                let m = &items[j % items.len()];
                 let mut t = String::from_utf8_lossy(&base.stdin).into_owned();
-                if (j / 16) % 2 == 0 {
-                    t.insert(0, c);
-                } else {
-                    if (h >> 9) % 2 == 0 {
+                match (j / items.len()) % 4 {
+                    0 => t.insert_str(0, m),
+                    1 => {
                         while t.ends_with('\n') || t.ends_with('\r') {
                             t.pop();
                         }
+                        t.push_str(m);
                     }
-                    t.push(c);
+                    2 => t = format!("{}\n{}", m, t),
+                    _ => {
+                        if !t.is_empty() && !t.ends_with('\n') {
+                            t.push('\n');
+                        }
+                        t.push_str(m);
+                        if j % 2 == 0 {
+                            t.push('\n');
+                        }
+                    }
                 }
                 base.stdin = t.into_bytes();
             }
@@ -462,7 +493,7 @@ impl Property for C14 {
             let args: Vec<String> = vec!["run".into(), format!("-O{}", level), "--color".into(), "never".into(), path.to_string_lossy().into_owned()];
             let r = real::run(&bin, &args, None, &sc.stdin, &chunks, Duration::from_secs(120)).expect("spawn");
             binary_runs += 1;
-            let (_h, rest) = crate::props::c01::split_header(&r.stdout, if level == 0 { 2 } else { 3 });
+            let rest = crate::props::c01::program_stdout(&r.stdout, &ex.out);
             if r.timed_out || r.status != Some(0) || rest != ex.out || !r.stderr.is_empty() {
                 let (e, o) = diff_msg(&ex.out, &rest);
                 let mut v = Violation::new(&format!("binary-O{}-output-bytes", level), format!("status 0; {}", e), format!("{}; {} ; stderr {:?}", r.describe(), o, lossy(&r.stderr)));
@@ -518,7 +549,7 @@ impl Property for C14 {
             None
         } else {
             let r = crate::props::c01::real_run(&sc, level, "c14real");
-            let (_h, rest) = crate::props::c01::split_header(&r.stdout, if level == 0 { 2 } else { 3 });
+            let rest = crate::props::c01::program_stdout(&r.stdout, &ex.out);
             if r.timed_out || r.status != Some(0) || rest != ex.out || !r.stderr.is_empty() {
                 let (e, o) = diff_msg(&ex.out, &rest);
                 let mut v = Violation::new(&format!("binary-O{}-output-bytes", level), format!("status 0; {}", e), format!("{}; {} ; stderr {:?}", r.describe(), o, lossy(&r.stderr)));
